@@ -184,6 +184,37 @@ def signed_velocity_jacobian(ctx, rule="C05.R14"):
                     "about the joint point of body 1 enters with the wrong sign as soon as the joint points are apart (body 2 has slid along a free direction)", f"{BASE}:{st.lineno}")
 
 
+def no_extra_normalisation(ctx, rule="C05.R16"):
+    """K12 abstracts positive scalars away (a norm is positive), so a normalised force direction has the same signed monomials as the
+    un-normalised one.  The calls that produce such scalars are compared directly: the multiset of norm / sqrt calls and of divisions by
+    non-constant expressions in W_g must be contained in that of g_dot of the same class."""
+    rep = ctx.rep
+
+    def scalars(fn):
+        out = []
+        for w in ast.walk(fn):
+            if isinstance(w, ast.Call) and (dotted(w.func) or "").split(".")[-1] in ("norm", "sqrt"):
+                out.append(norm_src(w))
+            elif isinstance(w, ast.BinOp) and isinstance(w.op, ast.Div) and not isinstance(w.right, ast.Constant):
+                out.append("/" + norm_src(w.right))
+        return out
+    for rel, cname in ((BASE, "PositionOrientationBase"), (BASE, "ProjectedPositionOrientationBase"), ("cardillo/constraints/fixed_distance.py", "FixedDistance")):
+        fg, fw = ctx.repo.maybe(rel, f"{cname}.g_dot"), ctx.repo.maybe(rel, f"{cname}.W_g")
+        C = f"{rel}:{cname}.W_g"
+        if fg is None or fw is None:
+            rep.ok(rule, C, "g_dot / W_g not found (no verdict)", verdict="unknown", trivial=True)
+            continue
+        sg, sw = scalars(fg), scalars(fw)
+        extra = [x for x in sw if x not in sg]
+        if extra:
+            st = next((w for w in ast.walk(fw) if norm_src(w) == extra[0].lstrip("/") or (isinstance(w, ast.BinOp) and isinstance(w.op, ast.Div) and "/" + norm_src(w.right) == extra[0])), fw)
+            rep.bad(rule, C, st, f"W_g uses the scalar `{extra[0]}` that g_dot of the same class does not use: the force direction is rescaled by a state-dependent factor while g_dot keeps its "
+                    "own scale, so W_g is no longer (d g_dot / d u).T (and Wla_g_q no longer the derivative of W_g la_g) as soon as that factor differs from one - off the constraint manifold",
+                    f"{rel}:{getattr(st, 'lineno', fw.lineno)}")
+        else:
+            rep.ok(rule, C, f"no normalisation beyond g_dot's ({len(sw)} scalar factor(s), all shared)")
+
+
 def time_derivative_rows(ctx, rule="C05.R15"):
     """g_dot is d/dt g and g_ddot is d/dt g_dot (K19).  The rows of both routines are brought to the bracket normal form - polynomials with exact
     coefficients in dot(a, b) and det[a, b, c] of the atomic vectors, nested cross products removed by BAC-CAB / Lagrange - and the time
@@ -272,6 +303,8 @@ def time_derivative_rows(ctx, rule="C05.R15"):
 
 def run(ctx):
     rep = ctx.rep
+    rep.rule("C05.R16", "W_g carries no scalar normalisation (norm / sqrt / division by a state-dependent scalar) that g_dot does not carry: g_dot is linear in u with W_g.T as coefficient, so a factor 1 / |n| in W_g alone makes W_g differ from (d g_dot / d u).T by |n| = sqrt(1 - g^2) off the constraint manifold", 3)
+    no_extra_normalisation(ctx)
     rep.rule("C05.R15", "joint bases and FixedDistance: every row of g_dot is the time derivative of the same row of g, and of g_ddot of g_dot, as polynomials in dot / triple products of the kinematic vectors (K19 bracket normal form, exact coefficients, equality modulo vector identities)", 8)
     time_derivative_rows(ctx)
     rep.rule("C05.R12", "dependence monotonicity (K13) over every primal/derivative pair of K5: a stated derivative reads no datum its primal does not read", 15)
@@ -523,4 +556,9 @@ MUTANTS += [
 NEUTRAL += [
     dict(id="c05-n-r15b", what="FixedDistance.g_ddot with the common factor 2 pulled out", file='cardillo/constraints/fixed_distance.py',
          old="        return 2 * v_J1J2 @ v_J1J2 + 2 * r_J1J2 @ a_J1J2\n", new="        return 2 * (v_J1J2 @ v_J1J2 + r_J1J2 @ a_J1J2)\n"),
+]
+
+MUTANTS += [
+    dict(id="c05-r16-seed", canary=True, what="[seeded by sub-agent] the orientation columns of W_g use the UNIT direction n / |n| of the constraint moment while g_dot keeps n", file=BASE,
+         old='                n = cross3(A_IJ1[:, a], A_IJ2[:, b])\n                W_g[:, 3 + i] = n @ J\n', new="                n = cross3(A_IJ1[:, a], A_IJ2[:, b])\n                W_g[:, 3 + i] = (n / np.linalg.norm(n)) @ J\n", expect="C05.R16"),
 ]
